@@ -127,8 +127,21 @@ def _quote_doubling():
     return ts[1] > 6 * ts[0]          # 4 more levels: 16x on this tree; linear growth would give ~1.2x
 
 
+def _footnote_tab_hangs():
+    signal.signal(signal.SIGALRM, _alarm)
+    signal.alarm(2)
+    try:
+        P.fmt("[^fn]:\tccc\n", width=88)
+        return False
+    except Watchdog:
+        return True
+    finally:
+        signal.alarm(0)
+
+
 def witnesses():
-    return {"C12-marko-deep-nesting-recursion": _raises_recursion(),
+    return {"C12-marko-footnote-tab-hang": _footnote_tab_hangs(),
+            "C12-marko-deep-nesting-recursion": _raises_recursion(),
             "C12-marko-nested-quote-exponential": _quote_doubling()}
 
 
